@@ -199,6 +199,8 @@ class Check:
                 continue
             if m.get('label_regex') and not re.search(m['label_regex'], record.get('label', '')):
                 continue
+            if m.get('job_regex') and not re.search(m['job_regex'], record.get('job', '')):
+                continue
             return k
         return None
 
